@@ -294,7 +294,7 @@ CLAIMS.update({
         note="Per-location sequentially consistent interleaving semantics (one cell); memory orderings are recorded, not part of the "
              "correspondence (no proof depends on them: Relaxed -> SeqCst is not a violation). One NaN. Not exhibited by the model: stale "
              "relaxed loads on non-multi-copy-atomic hardware. CounterVec children are the same Value/Atomic code reached through C10's "
-             "harness object, not exercised here. Axioms: FloatAxioms; Flocq's classical/real axioms only under c01_monotone_float.",
+             "harness object, exercised through C10's harness object (see the last sentences of the claim). Axioms: FloatAxioms; Flocq's classical/real axioms only under c01_monotone_float.",
         ref="DESIGN.md section 4 C01 and 13"),
     "C11": dict(
         text="Theorems in coq/Props/C11.v (same model and invariants as C01 with set / inc / dec / add / sub / get): gauges (float and i64) are "
@@ -307,6 +307,47 @@ CLAIMS.update({
         note="As C01. The linearisation search is exhaustive because scenarios are bounded to 2-3 threads x 1-4 calls.",
         ref="DESIGN.md section 4 C11 and 13"),
 })
+
+
+# sentences added after the first version of each claim (uniform "spec holds of the model" theorems, extensions)
+EXTRA = {
+    "C01": " Counter-vector children are covered too: `C vec` scenarios on a real IntCounterVec (racing first requests, preemption between read-unlock "
+           "and write-lock) are validated by C10's vector model and judged by spec_c01_vec (every completed increment visible in a later collection, "
+           "exactly once); the theorems used there are C10's, re-exported as c01_vec_child_*. Local flushes include tiny amounts (1e-17, subnormals).",
+    "C02": " c02_spec_of_validated: for ALL traces, accepted by the validator and inside the executable domain (values +-2^k with distinct exponents "
+           "< 53, sorted bounds) implies the executable spec written from the property text is true - the oracle cannot raise an alarm on a trace the "
+           "model accepts (subset sums of such values decode uniquely: c02_decode_unique).",
+    "C03": " c03_spec_of_validated: for ALL accepted traces inside the domain in which every call returned, spec_c03 (growth, batch atomicity, "
+           "per-thread closure, quiescent exactness, typed reads) is true.",
+    "C04": " End to end: c04_gathered_roundtrip - for library collectors registered on a registry that new_custom accepts (C09's hypotheses) whose "
+           "same-name collectors share a type (C14's hypothesis) and whose strings are Rust Strings, encode (gather_families ...) succeeds and parses back "
+           "to view (gather_families ...); c04_gathered_never_errs. Proving it exposed the reserved-le defect (common label le), repaired in /repo.",
+    "C05": " c05_spec_model_partial: for every collision-free scenario of the covered language (one counter/gauge vector with all request, update, "
+           "remove, reset, clone and local-counter-vector operations, or one histogram vector without local vectors) the executable spec written from "
+           "the property text is true of the model's own run; c05_model_violation_needs_collision: there the model can contradict the text only through "
+           "two different tuples with one FNV-1a-64 key (the known class).",
+    "C06": " c06_spec_model: for every history over 29 operations (all collector constructors, registries, register/unregister/gather, updates, reads) "
+           "with no hash collision among its descriptors (decided by computation) spec_c06 - result kinds, no trace of refused calls, gather clause - "
+           "is true of the model's own run.",
+    "C07": " c07_spec_model_partial / c07_spec_strict_partial / c07_known_delimited_partial: for all histories of the covered sub-language (everything "
+           "but local metrics, timers, OpDrop, OpCustom) inside the executable domain, spec_c07 is true of the model's own run unless collectors of "
+           "different kinds share a name, and then everything but the family type still holds (known_mixed_kinds).",
+    "C08": " c08_spec_model: for EVERY history (< 2^63 operations, no FNV collision among the label tuples it uses) the executable spec written from "
+           "the property text is true of the model's own run (full operation language, nothing partial).",
+    "C09": " c09_spec_model (full operation language, hypothesis only 'Opts.const_labels is a map'): the executable spec - every constructor answers "
+           "Ok exactly when the text says, every gathered family has valid, pairwise distinct names and no histogram-valued sample carries le - is true "
+           "of the model's own run; c09_oracle_silent. Registry::new_custom now also refuses the reserved name le as a common label (repair 1b46295).",
+    "C12": " c12_spec_model: for every history of the covered language (everything the generators emit, vector forms included, arbitrary slot "
+           "arguments) inside the executable domain (no FNV collision among label tuples, fewer than 2^63 observations per histogram) spec_c12 is true "
+           "of the model's own run.",
+    "C14": " c14_spec_model_partial / c14_spec_strict_partial: as C07's uniform theorems, for spec_c14 / known_c14.",
+    "C15": " c15_spec_model (full operation language, no collision hypothesis: the spec's own true_collision escape excuses exactly the genuine "
+           "FNV-1a collisions): the executable spec is true of the model's own run; c15_oracle_silent.",
+    "C18": " c18_spec_model: for every history of the covered language inside the executable domain spec_c18 (including returned seconds and the "
+           "closure result) is true of the model's own run.",
+    "C19": " c19_spec_model: for every well-formed declaration and every allowed round (static, local and auto-flush forms) the executable spec is "
+           "true of the model's own output; c19_model_obs_matches.",
+}
 
 NOT_YET = "the technique applies (see DESIGN.md section 4) but the check is not finished, so the property is not claimed"
 
